@@ -83,7 +83,9 @@ def decide(prop, tier, seed=0, use_cache=True, out=sys.stdout):
             discharged += max(0, n_air - len(fails_here))
             for f in fails_here:
                 (sem_fail if f["class"] == "semantic" else aux_fail).append(dict(f, engine="verus", unit=unit))
-        if tier == "thorough" and r["status"] in ("proved", "failed"):
+        # vacuity guard on every run: a second generated file carries `assert(false)` at the start of every contracted
+        # function and loop body; each of them must FAIL (contradictory requires / invariants would make them pass)
+        if r["status"] in ("proved", "failed"):
             c = verus_run.run_unit(unit, canary=True, use_cache=use_cache)
             ev["canary_sites"] = c.get("canary_sites"); ev["canary_missed"] = c.get("canary_missed")
             if c.get("canary_missed"):
